@@ -65,14 +65,15 @@ CLAIMED = {
    ref='5 C04', technique=TECH),
  'C11': dict(
    text='Unbounded proof (Verus/Z3) over the real bodies of CosetTable::{new, len, canon, get, set, join, merge, compact}, scan, scan_inverse, scan_both_ways, '
-        'scan_and_connect, expanded_relator_set, coset_table and coset_representative: for ANY presentation and subgroup generators, every relator traced from every row of '
-        'the table coset_table returns ends in that row and every subgroup generator traced from row 0 ends in row 0, wherever the trace is defined (from the final '
-        'consistency pass, carried through the renumbering of compact by a transport lemma); for every complete table in which inverse generators undo generators, every '
+        'scan_and_connect, expanded_relator_set, coset_table and coset_representative: for ANY presentation and subgroup generators, the table coset_table returns is '
+        'complete (every generator and inverse generator defined at every row), every relator traced from every row ends in that row and every subgroup generator traced '
+        'from row 0 ends in row 0 (completeness from an invariant of the enumeration, closure from the final consistency pass, both carried through the renumbering of '
+        'compact); for every complete table in which inverse generators undo generators, every '
         '(row, word) coset_representative returns traces from row 0 to that row; get/set/join are specified against the abstract action with whole-table frames; the scans '
         'trace exactly the prefix they report.',
    note='Trusted: Verus+Z3, vstd, VecDeque/BTreeMap::from specs; all_gens and five std collection expressions in coset_table (BTreeSet new/extend/iteration, iter().chain(), '
         'Vec::extend(Option)) by their std semantics; the row-limit assert as an abort; FreeWord and IntPartition by the contracts proved in units free_words / partitions '
-        '(run as dependencies). NOT decided by contracts (bounded stand-in): that every entry of the returned table is defined, transitivity, row count = index; termination.',
+        '(run as dependencies). NOT decided by contracts (bounded stand-in): inverse generators undo generators, transitivity, row count = index; termination.',
    ref='5 C11', technique=TECH),
  'C05': dict(
    text='Unbounded proof (Verus/Z3) over the real bodies of build_set, build_sym_using_ms, orbit_reps_2d, cover and oriented_cover: for every complete base '
